@@ -4,6 +4,9 @@ import rules_h as RH
 import rules_k as RK
 import rules_o as RO
 import rules_l as RL
+import rules_q as RQ
+import rules_w as RW
+import rules_c17 as RC17
 
 COMBINATORS = ("merge", "flat_map", "concat", "zip", "combine_latest", "amb", "take_until",
                "skip_until", "sample", "switch_on_next", "sequence_equal")
@@ -81,6 +84,21 @@ def rules_for(pid):
             ("L4", lambda c: RL.l4_producer_polling(c.P, c.E), 6),
             ("F-no-guard-call", lambda c: RO.f_no_guard_call(c.P, c.E), 3),
         ],
+        "C08": [
+            ("Q", lambda c: RQ.q_rules(c.P, c.E), 22),
+        ],
+        "C17": [
+            ("K-self-cycle", lambda c: RC17.k_self_cycle(c.P, c.E), 12),
+            ("K1", lambda c: RC17.k1_cut_after_terminal(c.P, c.E), 1),
+            ("K5", lambda c: RC17.k5_relay_cut(c.P, c.E), 4),
+            ("K6", lambda c: RC17.k6_connect_cycle(c.P, c.E), 2),
+            ("S-finalize-after-terminal", lambda c: RO.s_finalize_after_terminal(c.P, c.E), 6),
+            ("S-finalize-shape", lambda c: RO.s_finalize_shape(c.P, c.E), 4),
+            ("O-unsub-order", lambda c: RO.o_unsub_order(c.P, c.E), 10),
+        ],
+        "C18": [
+            ("W", lambda c: RW.w_rules(c.P, c.E), 9),
+        ],
         "C14": [
             ("K-fresh-state", lambda c: RK.k_fresh_state(c.P, c.E), 60),
             ("K-fw-immutable", lambda c: RK.k_fw_immutable(c.P, c.E), 3),
@@ -123,6 +141,22 @@ EXPLANATION = {
            "are leaf locks (no user code, no nested acquisition).  L4: every emitting loop polls is_subscribed() and "
            "can leave on its false edge.  Cross-thread cyclic waits among instances of the same lock classes along "
            "the teardown hierarchy are NOT decided (needs the runtime pipeline topology).",
+    "C08": "async_function_queue is a closed module (three private cells).  The property over all interleavings follows "
+           "from the classical monitor argument; its premises are checked on the MIR: Q1 abort written only under the "
+           "queue mutex; Q2 notify after every enabling write; Q3 predicate wait reading abort and emptiness (and returning "
+           "false when aborted); Q4 abort re-check between wait and pop under the same guard; Q5 task invoked with no guard; "
+           "Q6 opposite queue ends; Q7 one worker, spawned once, outside any loop; Q8 the loop's only exit is the aborted "
+           "branch and abort is sticky; Q9 the invoked task is the popped one, never re-queued; Q10 stop clears under the "
+           "guard; Q11 DefaultScheduler::post runs its task exactly once synchronously; L3 lock order queue -> abort.",
+    "C17": "Cycle-cut part.  Ownership cycles arise by installing a closure into a slot of an object the closure "
+           "(transitively) owns; they are rediscovered from the MIR (three shapes) and must equal the reviewed table.  "
+           "Obligations: K1 finalize() cuts the subscriber's teardown after a terminal (gates followed on the false "
+           "edge), K2 finalize clears unscribers/on_finalize, K3 Observer::unsubscribe empties its teardown slot, K5 "
+           "Behavior/Replay relays unsubscribe the subscriber after a terminal, K6 the connect closure is released.",
+    "C18": "Monitor premises on ToVec::poll and the terminal callbacks of ToVec::start: W1 one write guard of `waker` "
+           "spans the `done` test and the waker store; W2 done=true dominates the waker read and wake(); W3 err before "
+           "done; W4 Ready only on the done edge, done never reset, buffer pushed only by next; W5 lock order.  "
+           "(read guard of waker across wake(): accepted under A-waker).",
     "C14": "The closure given to Observable::create is Fn+Send+Sync, so state that survives one subscription "
            "must sit behind interior mutability in a captured value; every capture of every SOURCE closure of "
            "a cold constructor is classified by the interior-mutable leaves of its type (K-fresh-state); "
